@@ -99,3 +99,72 @@ pub fn from_lax(f: &LOH) -> Result<Lax, String> {
             .collect(),
     })
 }
+
+// ------------------------------------------------------------------------------------------
+// lax functors and optics given by tables
+
+use crate::functor_model::{OpticTable, TableFunctor};
+use crate::labels::unobs;
+use open_hypergraphs::lax::functor::{dyn_functor, Functor};
+
+/// lax functor whose images are pending-free
+#[derive(Clone)]
+pub struct LFunctor(pub TableFunctor);
+
+impl Functor<Ob, Op, Ob, Op> for LFunctor {
+    fn map_object(&self, o: &Ob) -> impl ExactSizeIterator<Item = Ob> {
+        self.0.object(o.0).iter().map(|&l| Ob(l)).collect::<Vec<_>>().into_iter()
+    }
+    fn map_operation(&self, a: &Op, source: &[Ob], target: &[Ob]) -> LOH {
+        to_lax_d(&self.0.operation(a.0, &unobs(source), &unobs(target)))
+    }
+    fn map_arrow(&self, f: &LOH) -> LOH {
+        dyn_functor::define_map_arrow(self, f)
+    }
+}
+
+/// lax functor whose images carry label-consistent pending pairs (given per operation key)
+#[derive(Clone)]
+pub struct LFunctorPending(pub TableFunctor, pub std::collections::BTreeMap<crate::functor_model::OpKey, Vec<(usize, usize)>>);
+
+impl Functor<Ob, Op, Ob, Op> for LFunctorPending {
+    fn map_object(&self, o: &Ob) -> impl ExactSizeIterator<Item = Ob> {
+        self.0.object(o.0).iter().map(|&l| Ob(l)).collect::<Vec<_>>().into_iter()
+    }
+    fn map_operation(&self, a: &Op, source: &[Ob], target: &[Ob]) -> LOH {
+        let key = (a.0, unobs(source), unobs(target));
+        let d = self.0.operation(a.0, &key.1, &key.2);
+        let q = self.1.get(&key).cloned().unwrap_or_default();
+        to_lax(&Lax { d, q })
+    }
+    fn map_arrow(&self, f: &LOH) -> LOH {
+        dyn_functor::define_map_arrow(self, f)
+    }
+}
+
+#[derive(Clone)]
+pub struct LOptic(pub OpticTable);
+
+impl open_hypergraphs::lax::optic::Optic<Ob, Op, Ob, Op> for LOptic {
+    fn fwd_object(&self, o: &Ob) -> Vec<Ob> {
+        self.0.fwd.object(o.0).iter().map(|&l| Ob(l)).collect()
+    }
+    fn fwd_operation(&self, a: &Op, source: &[Ob], target: &[Ob]) -> LOH {
+        to_lax_d(&self.0.fwd.operation(a.0, &unobs(source), &unobs(target)))
+    }
+    fn rev_object(&self, o: &Ob) -> Vec<Ob> {
+        self.0.rev.object(o.0).iter().map(|&l| Ob(l)).collect()
+    }
+    fn rev_operation(&self, a: &Op, source: &[Ob], target: &[Ob]) -> LOH {
+        to_lax_d(&self.0.rev.operation(a.0, &unobs(source), &unobs(target)))
+    }
+    fn residual(&self, a: &Op) -> Vec<Ob> {
+        // the lax trait keys residuals by the operation label only
+        self.0
+            .residual
+            .iter()
+            .find(|(k, _)| k.0 == a.0)
+            .map(|(_, v)| v.iter().map(|&l| Ob(l)).collect())
+            .unwrap_or_default()
+    }
+}
